@@ -102,10 +102,36 @@ Theorem C10_cursor_walk_back : forall bf (m : mast K V) l j n,
 Proof. exact (cursor_walk_back K V cmp layer). Qed.
 End CURSOR_BACK.
 
-(** PARTIAL: mixed walks (Forward after Backward, Ceil then Backward) are covered separately by the
-    two denotations ([after], [before]) but the theorem relating them at one position
-    (before p ++ tl (after p) = listing) is not stated; cursors on empty trees report no entry
-    (C10_seek_empty and the correspondence check). *)
+(** One position, both views: [Pos F n p] - the cursor p, made on the tree with root node n, stands on
+    an entry; what lies behind it (its own entry included) followed by what lies in front of it
+    (its own entry excluded) is the listing of n.  Get reads the entry at index
+    (length (before p) - 1); Forward and Backward move that index by exactly one, in any mix, or step
+    off the end (empty path); Min, Max and Ceil establish a position. *)
+Section POSITION.
+Variables (K V : Type) (cmp : K -> K -> comparison).
+Hypothesis cmp_eq : forall a b, cmp a b = Eq <-> a = b.
+Hypothesis cmp_trans : forall a b c, cmp a b = Lt -> cmp b c = Lt -> cmp a c = Lt.
+
+Theorem C10_position_get : forall F n p, Pos K V F n p ->
+  cur_get _ _ p = nth_error (to_list_n K V n) (length (before K V p) - 1).
+Proof. exact (pos_get K V). Qed.
+Theorem C10_position_forward : forall F n p, Pos K V F n p ->
+  oks (cur_forward _ _ F p) (fun p' => p' = [] \/ (Pos K V F n p' /\ length (before K V p') = S (length (before K V p)))).
+Proof. exact (pos_forward K V). Qed.
+Theorem C10_position_backward : forall F n p, Pos K V F n p ->
+  oks (cur_backward _ _ F p) (fun p' => p' = [] \/ (Pos K V F n p' /\ S (length (before K V p')) = length (before K V p))).
+Proof. exact (pos_backward K V). Qed.
+Theorem C10_position_min : forall F (n : node K V), ne K V F n -> oks (cur_min _ _ F [(n, 0%Z)]) (Pos K V F n).
+Proof. exact (pos_min K V). Qed.
+Theorem C10_position_max : forall F (n : node K V), ne K V F n -> oks (cur_max _ _ F [(n, 0%Z)]) (Pos K V F n).
+Proof. exact (pos_max K V). Qed.
+Theorem C10_position_ceil : forall F k (n : node K V), ne K V F n -> ssorted K V cmp (to_list_n K V n) ->
+  oks (cur_ceil _ _ cmp F k [(n, 0%Z)]) (fun p => p = [] \/ Pos K V F n p).
+Proof. exact (pos_ceil K V cmp cmp_eq cmp_trans). Qed.
+End POSITION.
+
+(** cursors on empty trees report no entry (C10_seek_empty for seeks; the correspondence check for
+    the cursor calls). *)
 Print Assumptions C10_seek_iter.
 Print Assumptions C10_from_key_is_suffix.
 Print Assumptions C10_iter.
@@ -120,3 +146,9 @@ Print Assumptions C10_max.
 Print Assumptions C10_backward.
 Print Assumptions C10_get_is_last.
 Print Assumptions C10_cursor_walk_back.
+Print Assumptions C10_position_get.
+Print Assumptions C10_position_forward.
+Print Assumptions C10_position_backward.
+Print Assumptions C10_position_min.
+Print Assumptions C10_position_max.
+Print Assumptions C10_position_ceil.
